@@ -11,10 +11,8 @@ package main
 
 import (
 	"fmt"
-	"go/ast"
 	"go/token"
 	"go/types"
-	"strings"
 )
 
 func init() { register("C04", false, checkC04) }
@@ -346,506 +344,9 @@ func (e *c04e2) checkBoxJoin(m *types.Func, rule string) bool {
 	return true
 }
 
-// pointJoin: method (b *Bounds) f(p Point) must make b = join(b, {p}).
-func (e *c04e2) pointJoin(m *types.Func) string {
-	three := weakOrderings(3)
-	n := 0
-	check := func(b oBox, bEmpty bool, px, py int64) string {
-		n++
-		recv := e.mk(b)
-		_, why := e.it.Call(m, oPtr{recv}, []oval{e.it.point(e.pt, px, py)}, 0)
-		if why != "" {
-			return "outside the order fragment: " + why
-		}
-		want := join(b, oBox{px, py, px, py}, bEmpty, false)
-		if got, ok := boxOf(recv); !ok || got != want {
-			return fmt.Sprintf("ordering b=%s p=(r%d,r%d): receiver becomes %s, join is %s", b, px, py, showVal(recv), want)
-		}
-		return ""
-	}
-	for _, ox := range three {
-		if ox[0] > ox[1] {
-			continue
-		}
-		for _, oy := range three {
-			if oy[0] > oy[1] {
-				continue
-			}
-			if msg := check(oBox{ox[0], oy[0], ox[1], oy[1]}, false, ox[2], oy[2]); msg != "" {
-				e.c.Evals(n)
-				return msg
-			}
-		}
-	}
-	if msg := check(emptyBox, true, 0, 2); msg != "" {
-		e.c.Evals(n)
-		return msg
-	}
-	e.c.Evals(n)
-	return ""
-}
-
-// isJoin classifies a *Bounds method as a join by its parameter type: Point,
-// *Bounds, or a slice whose elements are folded by a join over the full range.
-func (e *c04e2) isJoin(m *types.Func) string {
-	if e.joinDn[m] {
-		return e.joinOK[m]
-	}
-	e.joinDn[m] = true
-	res := e.isJoin1(m)
-	e.joinOK[m] = res
-	return res
-}
-
-func (e *c04e2) isJoin1(m *types.Func) string {
-	sig := m.Type().(*types.Signature)
-	fd := e.c.P.Decl(m)
-	if fd == nil || sig.Recv() == nil || sig.Params().Len() != 1 {
-		return "not a one-argument method with source"
-	}
-	if !isNamed(sig.Recv().Type(), modPath, "Bounds") {
-		return "receiver is not *Bounds"
-	}
-	pt := sig.Params().At(0).Type()
-	info := e.c.P.InfoOf(m)
-	switch {
-	case isNamed(pt, modPath, "Point") && named(pt) == pt:
-		return e.pointJoin(m)
-	case isNamed(pt, modPath, "Bounds"):
-		if e.checkBoxJoinQuiet(m) {
-			return ""
-		}
-		return "not the lattice join of two boxes"
-	}
-	if _, ok := pt.Underlying().(*types.Slice); ok {
-		recv := receiverVar(info, fd)
-		params := paramVars(info, fd.Type)
-		sc := newFnScope(info, fd.Body)
-		// body: exactly one full-range loop over the parameter whose body calls a join on the element
-		okLoop := false
-		for _, st := range fd.Body.List {
-			l := sc.loopOf(st)
-			if l == nil {
-				return "statement `" + src(st) + "` is not a counting loop"
-			}
-			if !(l.Lo.ok && l.Lo.Of == nil && l.Lo.K == 0 && l.Hi.ok && l.Hi.K == 0 && l.Hi.Of != nil && objOf(info, l.Hi.Of) == params[0]) {
-				return "loop " + l.String() + " does not cover the whole argument"
-			}
-			if msg := e.loopFolds(info, sc, l, recv, nil); msg != "" {
-				return msg
-			}
-			okLoop = true
-		}
-		if !okLoop {
-			return "no fold loop"
-		}
-		return ""
-	}
-	return "parameter type " + pt.String() + " not recognised"
-}
-
-func (e *c04e2) checkBoxJoinQuiet(m *types.Func) bool {
-	// reuse the obligation produced for Extend when m is Extend; otherwise evaluate silently
-	for _, bp := range e.boxPairs(true) {
-		recv := e.mk(bp.a)
-		_, why := e.it.Call(m, oPtr{recv}, []oval{oPtr{e.mk(bp.b)}}, 0)
-		if why != "" {
-			return false
-		}
-		if got, ok := boxOf(recv); !ok || got != join(bp.a, bp.b, bp.aEmpty, bp.bEmpty) {
-			return false
-		}
-	}
-	return true
-}
-
-// loopFolds: the loop body joins the current element into accumulator acc on
-// every iteration (a top-level join call, no break/continue/return).
-// accVar == nil means "the method receiver recv".
-func (e *c04e2) loopFolds(info *types.Info, sc *fnScope, l *Loop, acc types.Object, _ interface{}) string {
-	brk, cont, rets := earlyExits(l.Body)
-	if len(brk)+len(cont)+len(rets) > 0 {
-		return "fold loop has an early exit (break/continue/return): some elements may be skipped"
-	}
-	for _, st := range l.Body.List {
-		es, ok := st.(*ast.ExprStmt)
-		if !ok {
-			continue
-		}
-		call, ok := unparen(es.X).(*ast.CallExpr)
-		if !ok || len(call.Args) != 1 {
-			continue
-		}
-		sel, ok := unparen(call.Fun).(*ast.SelectorExpr)
-		if !ok || objOf(info, sel.X) != acc {
-			continue
-		}
-		f := callee(info, call)
-		if f == nil {
-			continue
-		}
-		if msg := e.isJoin(f); msg != "" {
-			return "fold step `" + src(call) + "` is not a join: " + msg
-		}
-		// argument must be the current element, or its Bounds()
-		arg := unparen(call.Args[0])
-		if ac, ok := arg.(*ast.CallExpr); ok && len(ac.Args) == 0 {
-			if s2, ok := unparen(ac.Fun).(*ast.SelectorExpr); ok && s2.Sel.Name == "Bounds" {
-				arg = unparen(s2.X)
-			}
-		}
-		if l.Val != nil && objOf(info, arg) == l.Val {
-			return ""
-		}
-		if ix, ok := arg.(*ast.IndexExpr); ok && l.Idx != nil && objOf(info, ix.Index) == l.Idx && l.Hi.Of != nil && sameExpr(info, ix.X, l.Hi.Of) {
-			return ""
-		}
-		return "fold step `" + src(call) + "` does not take the current element"
-	}
-	return "loop body has no unconditional join of the current element"
-}
-
 // ---------------------------------------------------------------- R2 folds
 
-func c04folds(c *Ctx, e *c04e2) {
-	pk := c.P.Pkg("geom")
-	info := pk.TypesInfo
-	newBounds := c.P.Func("geom", "NewBounds")
-	newBoundsPoint := c.P.Func("geom", "NewBoundsPoint")
-	for _, tn := range geomTypes {
-		// ---- Bounds()
-		m := c.P.Method("geom", tn, "Bounds")
-		fd := c.P.Decl(m)
-		if fd == nil {
-			c.Unk("C04.R2", "geom."+tn+".Bounds", token.NoPos, "API anchor does not resolve")
-		} else {
-			name := c.P.FuncName(m)
-			recv := receiverVar(info, fd)
-			msg := ""
-			switch tn {
-			case "Bounds":
-				if len(fd.Body.List) != 1 || !isReturnOf(info, fd.Body.List[0], recv) {
-					msg = "(*Bounds).Bounds must return the receiver"
-				}
-			case "Point":
-				ok := false
-				if len(fd.Body.List) == 1 {
-					if r, isRet := fd.Body.List[0].(*ast.ReturnStmt); isRet && len(r.Results) == 1 {
-						if call, isCall := unparen(r.Results[0]).(*ast.CallExpr); isCall && callee(info, call) == newBoundsPoint && len(call.Args) == 1 && objOf(info, call.Args[0]) == recv {
-							ok = true
-						}
-					}
-				}
-				if !ok {
-					msg = "Point.Bounds must be NewBoundsPoint(receiver)"
-				}
-			default:
-				msg = c04boundsFold(c, e, info, fd, recv, newBounds)
-			}
-			if msg == "" {
-				c.OK("C04.R2", name, fd.Pos(), "complete fold")
-			} else {
-				c.Bad("C04.R2", name, fd.Pos(), "%s", msg)
-			}
-		}
-		// ---- Len()
-		m = c.P.Method("geom", tn, "Len")
-		fd = c.P.Decl(m)
-		if fd == nil {
-			c.Unk("C04.R2", "geom."+tn+".Len", token.NoPos, "API anchor does not resolve")
-			continue
-		}
-		name := c.P.FuncName(m)
-		recv := receiverVar(info, fd)
-		msg := ""
-		switch tn {
-		case "Point":
-			if v, ok := singleReturnConst(info, fd); !ok || v != 1 {
-				msg = "Point.Len must be 1"
-			}
-		case "Bounds":
-			v, ok := singleReturnConst(info, fd)
-			n := boundsPointsCases(c, info)
-			if !ok || n < 0 || v != int64(n) {
-				msg = fmt.Sprintf("(*Bounds).Len returns %d but Points() yields %d corners", v, n)
-			}
-		default:
-			msg = c04lenFold(info, fd, recv)
-		}
-		if msg == "" {
-			c.OK("C04.R2", name, fd.Pos(), "complete count")
-		} else {
-			c.Bad("C04.R2", name, fd.Pos(), "%s", msg)
-		}
-	}
-}
-
-func isReturnOf(info *types.Info, st ast.Stmt, o types.Object) bool {
-	r, ok := st.(*ast.ReturnStmt)
-	return ok && len(r.Results) == 1 && objOf(info, r.Results[0]) == o
-}
-
-func singleReturnConst(info *types.Info, fd *ast.FuncDecl) (int64, bool) {
-	if len(fd.Body.List) != 1 {
-		return 0, false
-	}
-	r, ok := fd.Body.List[0].(*ast.ReturnStmt)
-	if !ok || len(r.Results) != 1 {
-		return 0, false
-	}
-	return constInt(info, r.Results[0])
-}
-
-// boundsPointsCases: number of value-returning cases in (*Bounds).Points' closure.
-func boundsPointsCases(c *Ctx, info *types.Info) int {
-	m := c.P.Method("geom", "Bounds", "Points")
-	fd := c.P.Decl(m)
-	if fd == nil {
-		return -1
-	}
-	n := -1
-	ast.Inspect(fd.Body, func(nd ast.Node) bool {
-		if sw, ok := nd.(*ast.SwitchStmt); ok {
-			n = 0
-			for _, cl := range sw.Body.List {
-				cc := cl.(*ast.CaseClause)
-				if cc.List != nil {
-					n += len(cc.List)
-				}
-			}
-			return false
-		}
-		return true
-	})
-	return n
-}
-
-func c04boundsFold(c *Ctx, e *c04e2, info *types.Info, fd *ast.FuncDecl, recv types.Object, newBounds *types.Func) string {
-	sc := newFnScope(info, fd.Body)
-	var acc types.Object
-	folded := false
-	for _, st := range fd.Body.List {
-		switch s := st.(type) {
-		case *ast.AssignStmt:
-			if len(s.Lhs) == 1 && len(s.Rhs) == 1 {
-				if call, ok := unparen(s.Rhs[0]).(*ast.CallExpr); ok && callee(info, call) == newBounds && newBounds != nil {
-					if acc != nil {
-						return "accumulator re-initialised"
-					}
-					acc = objOf(info, s.Lhs[0])
-					continue
-				}
-			}
-			return "unexpected statement `" + src(s) + "`"
-		case *ast.ExprStmt:
-			// b.extendPoints(recv)
-			call, ok := unparen(s.X).(*ast.CallExpr)
-			if !ok || acc == nil || len(call.Args) != 1 {
-				return "unexpected statement `" + src(s) + "`"
-			}
-			sel, ok := unparen(call.Fun).(*ast.SelectorExpr)
-			if !ok || objOf(info, sel.X) != acc {
-				return "unexpected statement `" + src(s) + "`"
-			}
-			f := callee(info, call)
-			if f == nil {
-				return "unresolved call"
-			}
-			if msg := e.isJoin(f); msg != "" {
-				return "`" + src(call) + "` is not a join over the receiver: " + msg
-			}
-			if objOf(info, sc.canon(call.Args[0])) != recv {
-				return "`" + src(call) + "` does not fold the receiver"
-			}
-			folded = true
-		case *ast.RangeStmt, *ast.ForStmt:
-			l := sc.loopOf(st)
-			if l == nil || acc == nil {
-				return "loop not recognised"
-			}
-			if !(l.Lo.ok && l.Lo.Of == nil && l.Lo.K == 0 && l.Hi.ok && l.Hi.K == 0 && l.Hi.Of != nil && objOf(info, l.Hi.Of) == recv) {
-				return "loop " + l.String() + " does not cover every member of the receiver"
-			}
-			if msg := e.loopFolds(info, sc, l, acc, nil); msg != "" {
-				return msg
-			}
-			folded = true
-		case *ast.ReturnStmt:
-			if len(s.Results) != 1 || objOf(info, s.Results[0]) != acc || acc == nil {
-				return "returns `" + src(s) + "`, not the accumulator"
-			}
-			if !folded {
-				return "returns before folding the receiver"
-			}
-			return ""
-		default:
-			return "unexpected statement `" + src(st) + "`"
-		}
-	}
-	return "no return of the accumulator"
-}
-
-func c04lenFold(info *types.Info, fd *ast.FuncDecl, recv types.Object) string {
-	sc := newFnScope(info, fd.Body)
-	// form 1: return len(recv)
-	if len(fd.Body.List) == 1 {
-		if r, ok := fd.Body.List[0].(*ast.ReturnStmt); ok && len(r.Results) == 1 {
-			a := sc.aff(r.Results[0])
-			if a.ok && a.K == 0 && a.Of != nil && objOf(info, a.Of) == recv {
-				return ""
-			}
-			return "returns `" + src(r.Results[0]) + "`, not len(receiver)"
-		}
-	}
-	var acc types.Object
-	folded := false
-	for _, st := range fd.Body.List {
-		switch s := st.(type) {
-		case *ast.DeclStmt:
-			gd := s.Decl.(*ast.GenDecl)
-			for _, sp := range gd.Specs {
-				vs, ok := sp.(*ast.ValueSpec)
-				if !ok || len(vs.Names) != 1 {
-					return "unexpected declaration"
-				}
-				if len(vs.Values) == 1 {
-					if k, ok := constInt(info, vs.Values[0]); !ok || k != 0 {
-						return "accumulator does not start at 0"
-					}
-				}
-				acc = info.Defs[vs.Names[0]]
-			}
-		case *ast.AssignStmt:
-			if len(s.Lhs) == 1 && len(s.Rhs) == 1 && s.Tok == token.DEFINE {
-				if k, ok := constInt(info, s.Rhs[0]); ok && k == 0 {
-					acc = objOf(info, s.Lhs[0])
-					continue
-				}
-			}
-			return "unexpected statement `" + src(s) + "`"
-		case *ast.RangeStmt, *ast.ForStmt:
-			l := sc.loopOf(st)
-			if l == nil || acc == nil {
-				return "loop not recognised"
-			}
-			if !(l.Lo.ok && l.Lo.Of == nil && l.Lo.K == 0 && l.Hi.ok && l.Hi.K == 0 && l.Hi.Of != nil && objOf(info, l.Hi.Of) == recv) {
-				return "loop " + l.String() + " does not cover every member of the receiver"
-			}
-			brk, cont, rets := earlyExits(l.Body)
-			if len(brk)+len(cont)+len(rets) > 0 {
-				return "count loop has an early exit"
-			}
-			okStep := false
-			for _, bs := range l.Body.List {
-				as, ok := bs.(*ast.AssignStmt)
-				if !ok || len(as.Lhs) != 1 || objOf(info, as.Lhs[0]) != acc {
-					continue
-				}
-				var add ast.Expr
-				if as.Tok == token.ADD_ASSIGN {
-					add = as.Rhs[0]
-				} else if as.Tok == token.ASSIGN {
-					if b, ok := unparen(as.Rhs[0]).(*ast.BinaryExpr); ok && b.Op == token.ADD {
-						if objOf(info, b.X) == acc {
-							add = b.Y
-						} else if objOf(info, b.Y) == acc {
-							add = b.X
-						}
-					}
-				}
-				if add == nil {
-					return "accumulator updated by `" + src(as) + "`, not by adding the member's count"
-				}
-				// len(elem) or elem.Len()
-				var of ast.Expr
-				if la := lenArg(info, add); la != nil {
-					of = la
-				} else if call, ok := unparen(add).(*ast.CallExpr); ok && len(call.Args) == 0 {
-					if sel, ok := unparen(call.Fun).(*ast.SelectorExpr); ok && sel.Sel.Name == "Len" {
-						of = sel.X
-					}
-				}
-				if of == nil {
-					return "adds `" + src(add) + "`, not the member's vertex count"
-				}
-				of = unparen(of)
-				if l.Val != nil && objOf(info, of) == l.Val {
-					okStep = true
-				} else if ix, ok := of.(*ast.IndexExpr); ok && l.Idx != nil && objOf(info, ix.Index) == l.Idx && objOf(info, ix.X) == recv {
-					okStep = true
-				} else {
-					return "adds the count of `" + src(of) + "`, not of the current member"
-				}
-			}
-			if !okStep {
-				return "loop body does not add the member's count unconditionally"
-			}
-			folded = true
-		case *ast.ReturnStmt:
-			if len(s.Results) != 1 || objOf(info, s.Results[0]) != acc || acc == nil {
-				return "returns `" + src(s) + "`, not the accumulator"
-			}
-			if !folded {
-				return "returns before counting"
-			}
-			return ""
-		default:
-			return "unexpected statement `" + src(st) + "`"
-		}
-	}
-	return "no return of the accumulator"
-}
-
 // ---------------------------------------------------------------- R3/R4 iterators
-
-func c04iters(c *Ctx) {
-	pk := c.P.Pkg("geom")
-	info := pk.TypesInfo
-	for _, tn := range []string{"MultiLineString", "Polygon", "MultiPolygon", "GeometryCollection"} {
-		m := c.P.Method("geom", tn, "Points")
-		fd := c.P.Decl(m)
-		if fd == nil {
-			c.Unk("C04.R3", "geom."+tn+".Points", token.NoPos, "API anchor does not resolve")
-			continue
-		}
-		name := c.P.FuncName(m)
-		recv := receiverVar(info, fd)
-		lits := funcLits(fd.Body)
-		if len(lits) != 1 {
-			c.Unk("C04.R3", name, fd.Pos(), "expected exactly one iterator closure, found %d", len(lits))
-			continue
-		}
-		lit := lits[0]
-		// (1) no indexing of the receiver in the method body outside the closure
-		var eager ast.Node
-		inspectNoLits(fd.Body, func(n ast.Node) bool {
-			if ix, ok := n.(*ast.IndexExpr); ok && rootObj(info, ix) == recv && eager == nil {
-				eager = ix
-			}
-			return true
-		})
-		it := &iterCheck{info: info, recv: recv, c: c}
-		it.run(lit)
-		switch {
-		case eager != nil:
-			c.Bad("C04.R3", name, eager.Pos(), "`%s` is evaluated when the iterator is created: an empty collection (Len()==0) panics before any call", src(eager))
-		case it.unsupported != "":
-			c.Unk("C04.R3", name, lit.Pos(), "%s", it.unsupported)
-		case len(it.bad) > 0:
-			c.Bad("C04.R3", name, it.bad[0].pos, "%s", it.bad[0].msg)
-		default:
-			c.OK("C04.R3", name, lit.Pos(), "%d nested accesses, all behind a fresh length guard", it.accesses)
-		}
-		switch {
-		case it.unsupported != "":
-			c.Unk("C04.R4", name, lit.Pos(), "%s", it.unsupported)
-		case len(it.badOrder) > 0:
-			c.Bad("C04.R4", name, it.badOrder[0].pos, "%s", it.badOrder[0].msg)
-		default:
-			c.OK("C04.R4", name, lit.Pos(), "indices only ++/reset; one increment between guard and return")
-		}
-	}
-}
 
 type iterBad struct {
 	pos token.Pos
@@ -863,345 +364,4 @@ type iterCheck struct {
 	seen        map[string]bool
 	memberIt    map[types.Object]bool   // variables holding a member iterator (X[j].Points())
 	memberOf    map[types.Object]string // … and the member expression it iterates
-}
-
-// guard fact encoding: "g|<var pos>|<off>|<P source>"; member iterator in step with its index: "fresh|<var pos>"
-func gfact(v types.Object, off int64, p string) string {
-	return fmt.Sprintf("g|%d|%d|%s", v.Pos(), off, p)
-}
-
-func (it *iterCheck) report(pos token.Pos, msg string) {
-	if it.seen == nil {
-		it.seen = map[string]bool{}
-	}
-	k := fmt.Sprint(pos) + msg
-	if !it.seen[k] {
-		it.seen[k] = true
-		it.bad = append(it.bad, iterBad{pos, msg})
-	}
-}
-
-// idxTerm parses e as v+off for a variable v.
-func (it *iterCheck) idxTerm(e ast.Expr) (types.Object, int64, bool) {
-	e = unparen(e)
-	if o := objOf(it.info, e); o != nil {
-		if _, ok := o.(*types.Var); ok {
-			return o, 0, true
-		}
-	}
-	if b, ok := e.(*ast.BinaryExpr); ok && (b.Op == token.ADD || b.Op == token.SUB) {
-		if o := objOf(it.info, b.X); o != nil {
-			if k, ok := constInt(it.info, b.Y); ok {
-				if b.Op == token.SUB {
-					k = -k
-				}
-				return o, k, true
-			}
-		}
-	}
-	return nil, 0, false
-}
-
-// depth of an index chain rooted at the receiver: recv → 0, recv[a] → 1, …; -1 if not rooted there.
-func (it *iterCheck) depth(e ast.Expr) int {
-	e = unparen(e)
-	if objOf(it.info, e) == it.recv {
-		return 0
-	}
-	if ix, ok := e.(*ast.IndexExpr); ok {
-		d := it.depth(ix.X)
-		if d >= 0 {
-			return d + 1
-		}
-	}
-	return -1
-}
-
-// checkAccesses verifies every nested index in e under facts s, honouring
-// short-circuit evaluation of && and ||.
-func (it *iterCheck) checkAccesses(e ast.Node, s Facts) {
-	switch x := e.(type) {
-	case nil:
-		return
-	case *ast.BinaryExpr:
-		if x.Op == token.LAND || x.Op == token.LOR {
-			it.checkAccesses(x.X, s)
-			s2 := s.Copy()
-			it.applyCond(x.X, x.Op == token.LAND, s2)
-			it.checkAccesses(x.Y, s2)
-			return
-		}
-	case *ast.FuncLit:
-		return
-	case *ast.IndexExpr:
-		d := it.depth(x.X)
-		if d >= 1 {
-			it.accesses++
-			v, off, ok := it.idxTerm(x.Index)
-			p := src(x.X)
-			if !ok {
-				it.report(x.Pos(), "index `"+src(x.Index)+"` of `"+p+"` is not of the form var±const")
-			} else if !s[gfact(v, off, p)] {
-				it.report(x.Pos(), fmt.Sprintf("`%s` is reached on a path where `%s` has not been compared with len(%s) since `%s` (or an index inside `%s`) last changed: with an empty member at that position this indexes out of range", src(x), src(x.Index), p, v.Name(), p))
-			}
-		}
-		it.checkAccesses(x.X, s)
-		it.checkAccesses(x.Index, s)
-		return
-	case *ast.CallExpr:
-		// member iterator call p()
-		if id, ok := unparen(x.Fun).(*ast.Ident); ok && len(x.Args) == 0 {
-			if o := objOf(it.info, id); o != nil && it.memberIt[o] {
-				it.accesses++
-				if !s[fmt.Sprintf("fresh|%d", o.Pos())] {
-					it.report(x.Pos(), "member iterator `"+o.Name()+"` is called after the member index changed without re-creating it")
-				}
-				// needs a guard (i, -1|0, member) on the member's Len(): look for any guard on a depth-1 prefix
-				okGuard := false
-				for f := range s {
-					if strings.HasPrefix(f, "g|") && strings.HasSuffix(f, "|"+it.memberOf[o]) {
-						okGuard = true
-					}
-				}
-				if !okGuard {
-					it.report(x.Pos(), "member iterator `"+o.Name()+"()` is called on a path where the element index has not been compared with "+it.memberOf[o]+".Len() since the member index last changed: an empty member makes the member iterator run past its end")
-				}
-			}
-		}
-	}
-	// generic descent
-	ast.Inspect(e, func(n ast.Node) bool {
-		if n == e {
-			return true
-		}
-		if n == nil {
-			return false
-		}
-		if ex, ok := n.(ast.Expr); ok {
-			it.checkAccesses(ex, s)
-			return false
-		}
-		return true
-	})
-}
-
-// applyCond adds guard facts from cond == truth.
-func (it *iterCheck) applyCond(cond ast.Expr, truth bool, s Facts) {
-	for _, at := range conjuncts(cond, truth) {
-		b, ok := unparen(at.E).(*ast.BinaryExpr)
-		if !ok {
-			continue
-		}
-		op := b.Op
-		l, r := b.X, b.Y
-		lenOf := func(e ast.Expr) string {
-			if la := lenArg(it.info, e); la != nil {
-				return src(la)
-			}
-			if call, ok := unparen(e).(*ast.CallExpr); ok && len(call.Args) == 0 {
-				if sel, ok := unparen(call.Fun).(*ast.SelectorExpr); ok && sel.Sel.Name == "Len" && it.depth(sel.X) >= 0 {
-					return src(sel.X)
-				}
-			}
-			return ""
-		}
-		p := lenOf(r)
-		if p == "" {
-			if p = lenOf(l); p == "" {
-				continue
-			}
-			l, r = r, l
-			switch op {
-			case token.LSS:
-				op = token.GTR
-			case token.GTR:
-				op = token.LSS
-			case token.LEQ:
-				op = token.GEQ
-			case token.GEQ:
-				op = token.LEQ
-			}
-		}
-		v, off, ok := it.idxTerm(l)
-		if !ok {
-			continue
-		}
-		inRange := false
-		switch op {
-		case token.EQL:
-			inRange = !at.Truth
-		case token.NEQ:
-			inRange = at.Truth
-		case token.LSS:
-			inRange = at.Truth
-		case token.GEQ:
-			inRange = !at.Truth
-		}
-		if inRange {
-			s[gfact(v, off, p)] = true
-		}
-	}
-}
-
-// kill removes facts invalidated by a write to v; shift adjusts offsets on v++.
-func (it *iterCheck) write(v types.Object, delta int64, isInc bool, s Facts) {
-	for f := range s {
-		if !strings.HasPrefix(f, "g|") {
-			continue
-		}
-		parts := strings.SplitN(f, "|", 4)
-		var vp, off int64
-		fmt.Sscan(parts[1], &vp)
-		fmt.Sscan(parts[2], &off)
-		p := parts[3]
-		mentions := false
-		// does P mention v? compare identifiers by name within source text tokens
-		for _, tok := range strings.FieldsFunc(p, func(r rune) bool {
-			return !(r == '_' || r >= '0' && r <= '9' || r >= 'a' && r <= 'z' || r >= 'A' && r <= 'Z')
-		}) {
-			if tok == v.Name() {
-				mentions = true
-			}
-		}
-		if mentions {
-			delete(s, f)
-			continue
-		}
-		if vp == int64(v.Pos()) {
-			delete(s, f)
-			if isInc {
-				s[fmt.Sprintf("g|%d|%d|%s", vp, off-delta, p)] = true
-			}
-		}
-	}
-	// member iterators become stale when an index they depend on changes
-	for o := range it.memberIt {
-		if strings.Contains(it.memberOf[o], v.Name()) {
-			delete(s, fmt.Sprintf("fresh|%d", o.Pos()))
-		}
-	}
-}
-
-func (it *iterCheck) run(lit *ast.FuncLit) {
-	it.memberIt = map[types.Object]bool{}
-	it.memberOf = map[types.Object]string{}
-	// discover member iterator variables: assigned from X[j].Points()
-	isMemberPoints := func(e ast.Expr) string {
-		call, ok := unparen(e).(*ast.CallExpr)
-		if !ok || len(call.Args) != 0 {
-			return ""
-		}
-		sel, ok := unparen(call.Fun).(*ast.SelectorExpr)
-		if !ok || sel.Sel.Name != "Points" || it.depth(sel.X) != 1 {
-			return ""
-		}
-		return src(sel.X)
-	}
-	ast.Inspect(lit.Body, func(n ast.Node) bool {
-		if as, ok := n.(*ast.AssignStmt); ok && len(as.Lhs) == 1 && len(as.Rhs) == 1 {
-			if m := isMemberPoints(as.Rhs[0]); m != "" {
-				if o := objOf(it.info, as.Lhs[0]); o != nil {
-					it.memberIt[o] = true
-					it.memberOf[o] = m
-				}
-			}
-		}
-		return true
-	})
-	order := func(pos token.Pos, msg string) { it.badOrder = append(it.badOrder, iterBad{pos, msg}) }
-	cl := &FactsClient{}
-	cl.OnStmt = func(n ast.Node, s Facts) Facts {
-		switch st := n.(type) {
-		case *ast.IncDecStmt:
-			it.checkAccesses(st.X, s)
-			if v := objOf(it.info, st.X); v != nil {
-				if st.Tok == token.INC {
-					it.write(v, 1, true, s)
-				} else {
-					order(st.Pos(), "index `"+v.Name()+"` is decremented: vertices would repeat or go backwards")
-					it.write(v, -1, true, s)
-				}
-			}
-		case *ast.AssignStmt:
-			for _, r := range st.Rhs {
-				it.checkAccesses(r, s)
-			}
-			for i, l := range st.Lhs {
-				v := objOf(it.info, l)
-				if v == nil {
-					it.checkAccesses(l, s)
-					continue
-				}
-				if it.memberIt[v] {
-					// p = X[j].Points(): fresh again
-					s[fmt.Sprintf("fresh|%d", v.Pos())] = true
-					continue
-				}
-				if _, isInt := v.Type().Underlying().(*types.Basic); isInt && st.Tok == token.ASSIGN {
-					if k, ok := constInt(it.info, st.Rhs[min(i, len(st.Rhs)-1)]); !ok || k != 0 {
-						order(st.Pos(), "index `"+v.Name()+"` is assigned `"+src(st.Rhs[min(i, len(st.Rhs)-1)])+"`: only ++ and reset to 0 keep storage order")
-					}
-				} else if st.Tok == token.ADD_ASSIGN || st.Tok == token.SUB_ASSIGN {
-					order(st.Pos(), "index `"+v.Name()+"` changed by `"+src(st)+"`")
-				}
-				it.write(v, 0, false, s)
-			}
-		case *ast.ExprStmt:
-			it.checkAccesses(st.X, s)
-		case *ast.DeferStmt:
-			it.unsupported = "defer inside the iterator closure is not modelled"
-		case *ast.DeclStmt:
-			it.checkAccesses(st, s)
-		case *ast.RangeStmt:
-			it.unsupported = "range loop inside the iterator closure is not modelled"
-		}
-		return s
-	}
-	cl.OnBranch = func(cond ast.Expr, truth bool, s Facts) Facts {
-		it.checkAccesses(cond, s)
-		it.applyCond(cond, truth, s)
-		return s
-	}
-	cl.OnReturn = func(r *ast.ReturnStmt, s Facts) {
-		if r == nil {
-			return
-		}
-		for _, e := range r.Results {
-			it.checkAccesses(e, s)
-		}
-		// R4: innermost index incremented exactly once since its guard
-		if len(r.Results) == 1 {
-			e := unparen(r.Results[0])
-			var inner string
-			if ix, ok := e.(*ast.IndexExpr); ok && it.depth(ix.X) >= 1 {
-				inner = src(ix.X)
-			} else if call, ok := e.(*ast.CallExpr); ok {
-				if o := objOf(it.info, call.Fun); o != nil && it.memberIt[o] {
-					inner = it.memberOf[o]
-				}
-			} else if o := objOf(it.info, e); o != nil {
-				return // element saved in a local; covered by R3 at the access
-			}
-			if inner != "" {
-				ok := false
-				for f := range s {
-					if strings.HasPrefix(f, "g|") && strings.HasSuffix(f, "|-1|"+inner) {
-						ok = true
-					}
-				}
-				if !ok {
-					order(r.Pos(), "at `"+src(r)+"` the element index of `"+inner+"` has not been incremented exactly once since it was checked: vertices would be skipped or repeated")
-				}
-			}
-		}
-	}
-	fl := &Flow[Facts]{C: cl, Info: it.info}
-	init := Facts{}
-	for o := range it.memberIt {
-		init[fmt.Sprintf("fresh|%d", o.Pos())] = true // invariant assumed at entry, re-established by every path
-	}
-	fl.Run(lit.Body, init)
-	if len(fl.Unsupported) > 0 && it.unsupported == "" {
-		it.unsupported = "unsupported control flow `" + src(fl.Unsupported[0]) + "`"
-	}
 }
